@@ -19,6 +19,7 @@ class GuardRoles:
         self.adt = None
         self.drop_fn = None
         self.addr = self.saved = self.len = self.jit_ptr = self.jit_size = None
+        self.len_is_saved_len = False      # the destructor restores the whole saved buffer (count = saved.len())
         self.problems = []
 
 
@@ -34,9 +35,12 @@ def guard_roles(tm):
             a = self_field(ev.extra["dst"].e)
             if a:
                 g.addr = a
-            c = self_field(ev.extra["count"].e)
+            ce = ev.extra["count"].e
+            c = self_field(ce)
             if c:
                 g.len = c
+            elif ce.op == "vec_len" and self_field(ce.args[0]):
+                g.len_is_saved_len = True
             s = ev.extra.get("src")
             se = s.e if isinstance(s, Int) else (s if isinstance(s, E) else None)
             if se is not None:
@@ -152,6 +156,23 @@ def teardown_order(tm, inj_adt, field, guard_adt):
                 is_none = dv == 0 or (isinstance(dv, tuple) and dv[0] == "otherwise" and 1 in dv[1])
                 if not is_none:
                     exits_on_none = False
+        # a call that may panic while guards are still in the container hands them to the front-to-back drop glue
+        risky = []
+        for v in vs:
+            for e in v.trace:
+                if e.kind in ("ext", "local", "summary", "indirect"):
+                    n = e.name
+                    if n.endswith("::pop") or n.endswith("::pop_back") or n == "std::mem::drop" or n.endswith("::reverse"):
+                        continue
+                    if v.status == "returned":
+                        pe_ = [x for x in v.trace if x.kind == "ext" and (x.name.endswith("::pop") or x.name.endswith("::pop_back"))]
+                        if pe_ and e.idx > pe_[-1].idx:
+                            continue        # after the loop found the container empty
+                    risky.append(e)
+        if risky:
+            r0 = risky[0]
+            return "unknown", ("explicit Drop for %s calls %s (at %s) while guards may still be in `%s`: if it panics, unwinding leaves the remaining "
+                               "guards to the drop glue, which restores them front to back (oldest first)" % (short(inj_adt), short(r0.name), r0.where(), field)), where_, drop_fn
         if any(n.endswith("::pop") or n.endswith("::pop_back") for n in lifo_markers):
             if pops and drops_popped and exits_on_none:
                 return "lifo", "explicit Drop for %s pops `%s` from the back until it is empty and drops each guard" % (short(inj_adt), field), where_, drop_fn
